@@ -319,6 +319,11 @@ def corpus():
         # foreign fragments: numbers 1..4 all present, one extra copy with fragments_in_submessage 2
         case(1, 1, 8, [("X", 1, 1, 4, 1, 1, 4, b"\xde"), ("X", 1, 1, 3, 1, 1, 4, b"\x68"), ("X", 1, 1, 2, 1, 1, 4, b"\x62"),
                        ("X", 2, 1, 1, 2, 1, 4, b""), ("X", 1, 1, 1, 1, 1, 4, b"\x67"), ("H", 1, 1, 1, 0)], False),
+        # 84c5233: fragments_in_submessage = payload length + 1 is accepted, + 2 is ignored
+        case(1, 1, 8, [("X", 1, 1, 1, 3, 1, 3, b"\x01\x02"), ("H", 1, 1, 1, 0)], False),
+        case(1, 1, 8, [("X", 1, 1, 1, 3, 1, 3, b"\x01"), ("H", 1, 1, 1, 0)], False),
+        # 9291c1e: sequence number i64::MAX is not accepted; 1f8d93c: HEARTBEAT with firstSN <= 0 is ignored
+        case(0, 1, 8, [("X", 1, 2**63 - 1, 1, 1, 1, 1, b"\x07"), ("H", 0, 1, 1, 0), ("H", 1, 1, 1, 0)], False),
     ]
 
 
